@@ -431,3 +431,237 @@ Proof.
   split; [apply nodict_lossless; assumption|].
   split; [apply strip_prune0; exact He|apply prune0_pos].
 Qed.
+
+(* ============================================================================================ *)
+(* The capped array keeps the N largest pushed values                                            *)
+From Coq Require Import Sorting.Sorted Permutation.
+
+Definition isort (vs : list N) : list N := fold_left (fun l v => ca_insert v l) vs [].
+Definition topn (n : nat) (l : list N) : list N := skipn (length l - n) l.
+Definition push_all (vs : list N) (c : capped) : capped := fold_left (fun c v => snd (ca_push v c)) vs c.
+
+Lemma ca_insert_perm : forall v l, Permutation (ca_insert v l) (v :: l).
+Proof.
+  induction l as [|x l IH]; cbn; [reflexivity|]. destruct (x <? v); [|reflexivity].
+  rewrite IH. apply perm_swap.
+Qed.
+
+Lemma ca_insert_length : forall v l, length (ca_insert v l) = S (length l).
+Proof. intros. apply (Permutation_length (ca_insert_perm v l)). Qed.
+
+Lemma ca_insert_sorted : forall v l, StronglySorted N.le l -> StronglySorted N.le (ca_insert v l).
+Proof.
+  induction l as [|x l IH]; intros Hs; cbn.
+  - constructor; constructor.
+  - inversion Hs as [|? ? Hs' Hall]; subst. destruct (N.ltb_spec x v).
+    + constructor; [auto|]. eapply Permutation_Forall; [symmetry; apply ca_insert_perm|].
+      constructor; [lia|exact Hall].
+    + constructor; [exact Hs|]. constructor; [exact H|]. eapply Forall_impl; [|exact Hall]. cbn. intros; lia.
+Qed.
+
+Lemma ca_insert_zero : forall l, ca_insert 0 l = 0 :: l.
+Proof. intros [|x l]; cbn; [reflexivity|]. replace (x <? 0) with false by lia. reflexivity. Qed.
+
+Lemma isort_snoc : forall vs v, isort (vs ++ [v]) = ca_insert v (isort vs).
+Proof. intros. unfold isort. rewrite fold_left_app. reflexivity. Qed.
+
+Lemma isort_sorted_perm : forall vs, StronglySorted N.le (isort vs) /\ Permutation (isort vs) vs.
+Proof.
+  induction vs as [|v vs IH] using rev_ind; [split; [constructor|reflexivity]|].
+  destruct IH as [Hs Hp]. rewrite isort_snoc. split; [apply ca_insert_sorted; exact Hs|].
+  rewrite ca_insert_perm, Hp. apply Permutation_cons_append.
+Qed.
+
+Lemma skipn_incl : forall {A} m (l : list A) x, In x (skipn m l) -> In x l.
+Proof. induction m as [|m IH]; intros [|y l] x H; cbn in *; auto. Qed.
+
+(* dropping one more element after an insertion: the window either stays or takes v and loses its head *)
+Lemma skipn_insert : forall v m L, StronglySorted N.le L -> (m < length L)%nat ->
+  skipn (S m) (ca_insert v L) =
+  match skipn m L with
+  | w0 :: _ => if v <=? w0 then skipn m L else tl (ca_insert v (skipn m L))
+  | [] => []
+  end.
+Proof.
+  induction m as [|m IH]; intros L Hs Hm.
+  - destruct L as [|x L]; [cbn in Hm; lia|]. cbn [skipn]. cbn [ca_insert].
+    destruct (N.leb_spec v x); [replace (x <? v) with false by lia|replace (x <? v) with true by lia]; reflexivity.
+  - destruct L as [|x L]; [cbn in Hm; lia|]. cbn [length] in Hm. inversion Hs as [|? ? Hs' Hall]; subst.
+    cbn [ca_insert]. destruct (N.ltb_spec x v) as [Hlt|Hge].
+    + change (skipn (S (S m)) (x :: ca_insert v L)) with (skipn (S m) (ca_insert v L)).
+      change (skipn (S m) (x :: L)) with (skipn m L). apply IH; [exact Hs'|lia].
+    + change (skipn (S (S m)) (v :: x :: L)) with (skipn m L).
+      change (skipn (S m) (x :: L)) with (skipn m L).
+      destruct (skipn m L) as [|w0 W] eqn:EW; [reflexivity|].
+      assert (Hin : In w0 L). { apply (skipn_incl m L). rewrite EW. left. reflexivity. }
+      rewrite Forall_forall in Hall. specialize (Hall w0 Hin). replace (v <=? w0) with true by lia. reflexivity.
+Qed.
+
+Definition ca_inv (cap : nat) (c : capped) (L : list N) : Prop :=
+  ca_max c = cap /\ StronglySorted N.le L /\ ca_vals c = topn cap L.
+
+Lemma topn_length : forall n l, length (topn n l) = Nat.min (length l) n.
+Proof. intros. unfold topn. rewrite skipn_length. lia. Qed.
+
+Lemma ca_push_inv : forall cap v c L, (1 <= cap)%nat -> ca_inv cap c L ->
+  ca_inv cap (snd (ca_push v c)) (ca_insert v L).
+Proof.
+  intros cap v c L Hcap [Hmax [Hs Hv]]. unfold ca_push. rewrite Hmax.
+  pose proof (topn_length cap L) as Hlen. rewrite <- Hv in Hlen.
+  destruct (Nat.ltb_spec (length (ca_vals c)) cap) as [Hnf|Hfull].
+  - assert (HL : (length L < cap)%nat) by lia.
+    assert (HvL : ca_vals c = L). { rewrite Hv. unfold topn. replace (length L - cap)%nat with 0%nat by lia. reflexivity. }
+    assert (Ht : topn cap (ca_insert v L) = ca_insert v L).
+    { unfold topn. rewrite ca_insert_length. replace (S (length L) - cap)%nat with 0%nat by lia. reflexivity. }
+    destruct (N.eqb_spec v 0) as [->|Hnz]; cbn [snd]; (split; [reflexivity|]; split; [apply ca_insert_sorted; exact Hs|]); cbn [ca_vals].
+    + rewrite Ht, HvL, ca_insert_zero. reflexivity.
+    + rewrite Ht, HvL. reflexivity.
+  - assert (HL : (cap <= length L)%nat) by lia.
+    assert (Ht : topn cap (ca_insert v L) = skipn (S (length L - cap)) (ca_insert v L)).
+    { unfold topn. rewrite ca_insert_length. f_equal. lia. }
+    rewrite (skipn_insert v (length L - cap) L Hs) in Ht by lia. fold (topn cap L) in Ht. rewrite <- Hv in Ht.
+    destruct (ca_vals c) as [|w0 W] eqn:EW; [cbn in Hlen; lia|].
+    destruct (v <=? w0); cbn [snd]; (split; [cbn [ca_max]; try exact Hmax; reflexivity|]; split; [apply ca_insert_sorted; exact Hs|]); cbn [ca_vals].
+    + rewrite Ht. exact EW.
+    + rewrite Ht. reflexivity.
+Qed.
+
+(* Part 1 of cappedarr_topN: after pushing ANY sequence of values (accepted or not) the window is exactly the
+   [cap] largest of them in ascending order, so MinValue is the cap-th largest once cap values were pushed *)
+Theorem cappedarr_window : forall cap vs, (1 <= cap)%nat ->
+  ca_vals (push_all vs (ca_new cap)) = topn cap (isort vs) /\
+  StronglySorted N.le (isort vs) /\ Permutation (isort vs) vs.
+Proof.
+  intros cap vs Hcap. split; [|apply isort_sorted_perm].
+  assert (H : ca_inv cap (push_all vs (ca_new cap)) (isort vs)).
+  { induction vs as [|v vs IH] using rev_ind.
+    - split; [reflexivity|]. split; [constructor|reflexivity].
+    - unfold push_all. rewrite fold_left_app. cbn [fold_left]. rewrite isort_snoc. apply ca_push_inv; assumption. }
+  apply H.
+Qed.
+
+(* ---- Part 2: on a tree, the pruned walk of minValue pushes enough ---- *)
+Fixpoint all_totals (t : tnode) : list N :=
+  match t with TNode _ _ tot ch => tot :: flat_map all_totals ch end.
+
+Definition count_ge (m : N) (l : list N) : nat := length (filter (fun x => m <=? x) l).
+Definition count_gt (m : N) (l : list N) : nat := length (filter (fun x => m <? x) l).
+
+Lemma mv_visit_eq : forall n s tot ch st,
+  mv_visit (TNode n s tot ch) st =
+  let (ok, c') := ca_push tot (fst st) in
+  let st' := (c', S (snd st)) in
+  if ok then mv_children ch st' else st'.
+Proof.
+  intros. cbn [mv_visit]. destruct (ca_push tot (fst st)) as [ok c']. destruct ok; [|reflexivity].
+  unfold mv_children. generalize (c', S (snd st)). induction ch as [|c ch IH]; intros st0; cbn [fold_left]; [reflexivity|apply IH].
+Qed.
+
+Definition ca_full (c : capped) : Prop := (ca_max c <= length (ca_vals c))%nat.
+Definition good_skip (c : capped) (x : N) : Prop := x = 0 \/ (ca_full c /\ x <= ca_min c).
+
+Lemma skipn_sorted : forall m (l : list N), StronglySorted N.le l -> StronglySorted N.le (skipn m l).
+Proof.
+  induction m as [|m IH]; intros [|x l] Hs; cbn; auto. inversion Hs; subst. auto.
+Qed.
+
+Lemma ca_inv_sorted : forall cap c L, ca_inv cap c L -> StronglySorted N.le (ca_vals c).
+Proof. intros cap c L [_ [Hs ->]]. apply skipn_sorted. exact Hs. Qed.
+
+Lemma ca_push_refused : forall v c, (1 <= ca_max c)%nat -> fst (ca_push v c) = false ->
+  v = 0 \/ (ca_full c /\ v <= ca_min c).
+Proof.
+  intros v c Hcap. unfold ca_push, ca_full, ca_min.
+  destruct (Nat.ltb_spec (length (ca_vals c)) (ca_max c)) as [Hnf|Hf].
+  - destruct (N.eqb_spec v 0); [auto|discriminate].
+  - destruct (ca_vals c) as [|w0 W]; [cbn in Hf; lia|].
+    destruct (N.leb_spec v w0); [intros _; right; split; [exact Hf|assumption]|discriminate].
+Qed.
+
+Lemma ca_push_mono : forall cap v c L x, (1 <= cap)%nat -> ca_inv cap c L ->
+  good_skip c x -> good_skip (snd (ca_push v c)) x.
+Proof.
+  intros cap v c L x Hcap Hinv [Hz|[Hfull Hle]]; [left; exact Hz|].
+  pose proof (ca_inv_sorted _ _ _ Hinv) as Hs. destruct Hinv as [Hmax _].
+  destruct c as [mx vals]. unfold ca_full, ca_min in Hfull, Hle. cbn [ca_max ca_vals] in *.
+  unfold ca_push. cbn [ca_max ca_vals].
+  destruct (Nat.ltb_spec (length vals) mx) as [Hnf|Hf]; [lia|].
+  destruct vals as [|w0 W]; [right; split; assumption|].
+  destruct (N.leb_spec v w0) as [Hvw|Hvw]; cbn [snd]; [right; split; assumption|].
+  right. unfold ca_full, ca_min. cbn [ca_max ca_vals ca_insert]. replace (w0 <? v) with true by lia. cbn [tl].
+  split; [rewrite ca_insert_length; cbn [length] in Hfull; lia|].
+  inversion Hs as [|? ? HsW Hall]; subst.
+  destruct W as [|w1 W']; cbn [ca_insert]; [lia|].
+  destruct (w1 <? v); [inversion Hall; subst; lia|lia].
+Qed.
+
+Lemma all_totals_le : forall t, t_subb t = true -> Forall (fun x => x <= t_total t) (all_totals t).
+Proof.
+  induction t as [n s tot ch IH] using tnode_ind'. intros Hsub. cbn [t_subb] in Hsub.
+  apply andb_true_iff in Hsub. destruct Hsub as [Hle Hc]. apply N.leb_le in Hle.
+  cbn [all_totals t_total]. constructor; [lia|].
+  assert (Hct : ch_total ch <= tot) by lia. clear Hle.
+  revert Hct. induction IH as [|c ch Hc1 _ IHc]; intros Hct; cbn [flat_map]; [constructor|].
+  cbn [forallb] in Hc. apply andb_true_iff in Hc. destruct Hc as [Hcc Hcr]. rewrite ch_total_cons in Hct.
+  apply Forall_app. split; [|apply IHc; [exact Hcr|lia]].
+  eapply Forall_impl; [|apply Hc1; exact Hcc]. cbn. intros; lia.
+Qed.
+
+(* the walk: everything it sees is either pushed (L') or skipped for a good reason (X) *)
+Definition walk_ok (cap : nat) (t : tnode) : Prop :=
+  forall c k L, ca_inv cap c L -> t_subb t = true ->
+  exists L' X, ca_inv cap (fst (mv_visit t (c, k))) L' /\
+               Permutation (L' ++ X) (all_totals t ++ L) /\
+               Forall (good_skip (fst (mv_visit t (c, k)))) X /\
+               (forall x, good_skip c x -> good_skip (fst (mv_visit t (c, k))) x) /\
+               (snd (mv_visit t (c, k)) + length L = k + length L')%nat.
+
+Lemma walk_children : forall cap ch, (1 <= cap)%nat -> Forall (walk_ok cap) ch ->
+  forall c k L, ca_inv cap c L -> forallb t_subb ch = true ->
+  exists L' X, ca_inv cap (fst (mv_children ch (c, k))) L' /\
+               Permutation (L' ++ X) (flat_map all_totals ch ++ L) /\
+               Forall (good_skip (fst (mv_children ch (c, k)))) X /\
+               (forall x, good_skip c x -> good_skip (fst (mv_children ch (c, k))) x) /\
+               (snd (mv_children ch (c, k)) + length L = k + length L')%nat.
+Proof.
+  intros cap ch Hcap HF. induction HF as [|t ch Ht _ IH]; intros c k L Hinv Hsub.
+  - exists L, []. cbn. rewrite app_nil_r. repeat split; auto.
+  - cbn [forallb] in Hsub. apply andb_true_iff in Hsub. destruct Hsub as [Hs1 Hs2].
+    unfold mv_children. cbn [fold_left]. fold (mv_children ch (mv_visit t (c, k))).
+    destruct (Ht c k L Hinv Hs1) as [L1 [X1 [Hi1 [Hp1 [Hg1 [Hm1 Hk1]]]]]].
+    destruct (mv_visit t (c, k)) as [c1 k1] eqn:E1. cbn [fst snd] in *.
+    destruct (IH c1 k1 L1 Hi1 Hs2) as [L2 [X2 [Hi2 [Hp2 [Hg2 [Hm2 Hk2]]]]]].
+    exists L2, (X2 ++ X1). split; [exact Hi2|]. split; [|split; [|split]].
+    + rewrite app_assoc, Hp2, <- app_assoc, Hp1. cbn [flat_map]. rewrite (app_assoc _ _ L).
+      apply Permutation_app_tail. apply Permutation_app_comm.
+    + apply Forall_app. split; [exact Hg2|]. eapply Forall_impl; [|exact Hg1]. exact Hm2.
+    + intros x Hx. apply Hm2, Hm1, Hx.
+    + lia.
+Qed.
+
+Lemma walk_ok_all : forall cap t, (1 <= cap)%nat -> walk_ok cap t.
+Proof.
+  intros cap t Hcap. induction t as [n s tot ch IH] using tnode_ind'. intros c k L Hinv Hsub.
+  rewrite mv_visit_eq. cbn [fst snd].
+  pose proof (ca_push_inv cap tot c L Hcap Hinv) as Hinv1.
+  pose proof (fun x => ca_push_mono cap tot c L x Hcap Hinv) as Hmono1.
+  assert (Hmax : (1 <= ca_max c)%nat) by (destruct Hinv as [-> _]; exact Hcap).
+  pose proof (ca_push_refused tot c Hmax) as Href.
+  destruct (ca_push tot c) as [ok c1]. cbn [fst snd] in *.
+  pose proof (all_totals_le _ Hsub) as Hle. cbn [all_totals t_total] in Hle. inversion Hle as [|? ? _ Hle']; subst.
+  cbn [t_subb] in Hsub. apply andb_true_iff in Hsub. destruct Hsub as [_ Hsubc].
+  destruct ok.
+  - destruct (walk_children cap ch Hcap IH c1 (S k) (ca_insert tot L) Hinv1 Hsubc) as [L2 [X2 [Hi2 [Hp2 [Hg2 [Hm2 Hk2]]]]]].
+    exists L2, X2. split; [exact Hi2|]. split; [|split; [exact Hg2|split]].
+    + rewrite Hp2. cbn [all_totals]. rewrite ca_insert_perm. cbn [app]. symmetry. apply Permutation_middle.
+    + intros x Hx. apply Hm2, Hmono1, Hx.
+    + rewrite ca_insert_length in Hk2. lia.
+  - exists (ca_insert tot L), (flat_map all_totals ch). cbn [fst snd]. split; [exact Hinv1|].
+    split; [|split; [|split]].
+    + rewrite ca_insert_perm. cbn [all_totals app]. constructor. apply Permutation_app_comm.
+    + specialize (Href eq_refl). assert (Hgs : good_skip c1 tot) by (apply Hmono1; exact Href).
+      eapply Forall_impl; [|exact Hle']. cbn. intros x Hx.
+      destruct Hgs as [Hz|[Hf Hm]]; [left; lia|right; split; [exact Hf|lia]].
+    + exact Hmono1.
+    + rewrite ca_insert_length. lia.
+Qed.
